@@ -153,5 +153,6 @@ func (l WCNFLayout) Knobs() []string {
 	add(l.Wide, "wide-spaces")
 	add(l.CRLF, "crlf")
 	add(l.NoFinalNL, "no-final-newline")
+	add(l.OverTop, "hard-weights-above-top")
 	return k
 }
